@@ -11,6 +11,12 @@
 (*     If(t, body, orelse)     if t: body else: orelse   (elif = an        *)
 (*                             orelse consisting of one If; <<>> = none)   *)
 (*     Ret(e)                  return e                                    *)
+(*   and, JUST OUTSIDE what MxlPy's translator supports (it must refuse):  *)
+(*     Aug(op, x, e)           x op= e       (op \in BinOps)               *)
+(*     While(t, body)          while t: body (at most LoopFuel rounds,     *)
+(*                             otherwise the outcome is "skip")            *)
+(*     For(i, cnt, body)       for i in range(cnt): body  (cnt a natural   *)
+(*                             number literal; i stays bound afterwards)   *)
 (* A function is FnDef(params, body) (module Expr); a program is a         *)
 (* function table ft plus the name of its entry function.                  *)
 (*                                                                         *)
@@ -31,7 +37,7 @@
 (*     RunFn(ft, f, vals)   run the named function on a sequence of values *)
 (*     Defined(body, env, ft) == Run(...).st = "ret"                       *)
 (*     Assigned(body)  Reads(body)  BodyConsts(body)  BodyCalls(body)      *)
-(*     BodyCmpNums(body)  StmtCount(body)  HasReturn(body)                 *)
+(*     BodyCmpNums(body)  StmtCount(body)  HasReturn(body)  HasLoop(body)  *)
 (*     WellFormed(params, body, ft): parameters distinct, locals disjoint  *)
 (*       from the names read as constants (Python would make them locals), *)
 (*       every called function and every named constant exists (a wrong    *)
@@ -43,6 +49,9 @@ EXTENDS Expr
 Assign(x, e)          == [k |-> "assign", name |-> x, e |-> e]
 Ret(e)                == [k |-> "ret", e |-> e]
 If(t, body, orelse)   == [k |-> "if", e |-> t, body |-> body, orelse |-> orelse]
+Aug(op, x, e)         == [k |-> "aug", name |-> x, op |-> op, e |-> e]
+While(t, body)        == [k |-> "while", e |-> t, body |-> body]
+For(i, cnt, body)     == [k |-> "for", name |-> i, e |-> Num(cnt), body |-> body]
 
 Run(body, env, ft) == LET r == RunFrom(body, 1, env, ft) IN [st |-> r.st, v |-> r.v]
 Defined(body, env, ft) == Run(body, env, ft).st = "ret"
@@ -50,18 +59,18 @@ Defined(body, env, ft) == Run(body, env, ft).st = "ret"
 ArgEnv(params, vals) == [x \in SeqRange(params) |-> vals[CHOOSE j \in DOMAIN params : params[j] = x]]
 RunFn(ft, f, vals) == Run(ft[f].body, ArgEnv(ft[f].params, vals), ft)
 
-RECURSIVE Assigned(_), StmtExprs(_), StmtCount(_), HasReturn(_)
+RECURSIVE Assigned(_), StmtExprs(_), StmtCount(_), HasReturn(_), HasLoop(_)
+
+Blocks(s) == IF s.k = "if" THEN <<s.body, s.orelse>> ELSE IF s.k \in {"while", "for"} THEN <<s.body>> ELSE <<>>
 
 \* names bound by assignment anywhere in the body (Python: these are the locals besides the parameters)
 Assigned(body) ==
-    UNION {IF body[j].k = "assign" THEN {body[j].name}
-           ELSE IF body[j].k = "if" THEN Assigned(body[j].body) \cup Assigned(body[j].orelse)
-           ELSE {} : j \in DOMAIN body}
+    UNION {(IF body[j].k \in {"assign", "aug", "for"} THEN {body[j].name} ELSE {})
+           \cup UNION {Assigned(Blocks(body[j])[m]) : m \in DOMAIN Blocks(body[j])} : j \in DOMAIN body}
 
 \* every expression occurring in the body
 StmtExprs(body) ==
-    UNION {{body[j].e} \cup (IF body[j].k = "if" THEN StmtExprs(body[j].body) \cup StmtExprs(body[j].orelse) ELSE {})
-           : j \in DOMAIN body}
+    UNION {{body[j].e} \cup UNION {StmtExprs(Blocks(body[j])[m]) : m \in DOMAIN Blocks(body[j])} : j \in DOMAIN body}
 
 Reads(body)       == UNION {FreeVars(e) : e \in StmtExprs(body)}
 BodyConsts(body)  == UNION {Consts(e) : e \in StmtExprs(body)}
@@ -71,13 +80,17 @@ BodyCmpNums(body) == UNION {CmpNums(e) : e \in StmtExprs(body)}
 RECURSIVE SumCount(_, _)
 SumCount(body, i) ==
     IF i > Len(body) THEN 0
-    ELSE 1 + (IF body[i].k = "if" THEN StmtCount(body[i].body) + StmtCount(body[i].orelse) ELSE 0)
+    ELSE 1 + (IF body[i].k = "if" THEN StmtCount(body[i].body) + StmtCount(body[i].orelse)
+              ELSE IF body[i].k \in {"while", "for"} THEN StmtCount(body[i].body) ELSE 0)
          + SumCount(body, i + 1)
 StmtCount(body) == SumCount(body, 1)
 
 HasReturn(body) ==
-    \E j \in DOMAIN body : body[j].k = "ret"
-                           \/ (body[j].k = "if" /\ (HasReturn(body[j].body) \/ HasReturn(body[j].orelse)))
+    \E j \in DOMAIN body : body[j].k = "ret" \/ \E m \in DOMAIN Blocks(body[j]) : HasReturn(Blocks(body[j])[m])
+
+\* while loops have no piecewise translation (for loops over a literal range can be unrolled)
+HasLoop(body) ==
+    \E j \in DOMAIN body : body[j].k = "while" \/ \E m \in DOMAIN Blocks(body[j]) : HasLoop(Blocks(body[j])[m])
 
 WellFormed(params, body, ft) ==
     /\ Cardinality(SeqRange(params)) = Len(params)
